@@ -1,7 +1,7 @@
 """C19 — codecs, checksums, MD5, AES (DESIGN §4 C19)."""
 from tbxlint.facts import extract, AnalysisBroken, MODULES
 from tbxlint import locks, q, refs, ival, rd, absint
-from rules import C19_bounds
+from rules import C19_bounds, C19_md5
 
 SCOPE = ['util/base64.cpp', 'util/string.cpp', 'util/scalable_integer.cpp', 'util/serializer.cpp', 'util/crc.cpp', 'util/checksum.cpp',
          'http/url.cpp', 'crypto/md5.cpp', 'crypto/aes.cpp']
@@ -82,8 +82,12 @@ def r1(ctx, prog):
                 if l and l['k'] == 'ArraySubscriptExpr' and (f.field_of(l['ch'][0]) or '').endswith('MD5::state_'):
                     init.append(f.s(f.strip_casts(st['ch'][1])).get('cv'))
     ctx.ob('C19.R1', 'MD5::MD5|initial-state', init == refs.MD5_INIT, 'initial chaining value A,B,C,D')
-    pad, _ = gvals(prog, 'PADDING')
-    ctx.ob('C19.R1', 'MD5.PADDING|0x80-then-zeros', pad == [0x80] + [0] * 63, '64-byte padding block')
+    try:
+        pad, _ = gvals(prog, 'PADDING')
+    except AnalysisBroken:
+        pad = None      # no padding table: the padding bytes are whatever finish() writes, decided by C19.R16
+    if pad is not None:
+        ctx.ob('C19.R1', 'MD5.PADDING|0x80-then-zeros', pad == [0x80] + [0] * 63, '64-byte padding block')
     mn, _ = gvals(prog, '_min_value_tbl')
     mx, _ = gvals(prog, '_max_value_tbl')
     ok = mn[1] == 0 and all(mx[n] - mn[n] + 1 == 2 ** (7 * n) for n in range(1, 10)) and all(mn[n + 1] == mx[n] + 1 for n in range(1, 10)) and len(mn) == 11 and len(mx) == 10
@@ -920,4 +924,6 @@ def run(ctx):
     ctx.guard(C19_bounds.r13, ctx, prog)
     ctx.guard(C19_bounds.r14, ctx, prog)
     ctx.guard(C19_bounds.r15, ctx, prog)
+    ctx.guard(C19_md5.r16, ctx, prog, gvals)
+    ctx.guard(C19_md5.r17, ctx, prog)
     return prog
